@@ -18,11 +18,14 @@ declare_fields(
     _event_active=BOOL, init_steps_completed=INT, initdef=VAL,
     oconnections=REFSET, iconnections=REFSET,
     # Circuit
-    _error=VAL, _simtask=VAL, _finalized=BOOL, sblock_queue=Ref('Queue'),
+    _error=VAL, _simtask=VAL, _finalized=BOOL, sblock_queue=Ref('SblockQueue'), q_set=REFSET,
     # Event
     _dest=VAL, _etype=VAL, _filters=Seq('val'),
 )
 FIELD_ALIAS.update(output='_output', etype='_etype')
+
+# what the synchronous delivery of events may change (outputs of other blocks, their event guards, the changed-block queue)
+DELIVERY = ('_output', '_event_active', 'q_set')
 
 
 # ------------------------------------------------------------------------------------------ spec functions
@@ -50,17 +53,107 @@ def set_output_result(p, v):
 # ------------------------------------------------------------------------------------------ SBlock.set_output
 # Contract as seen by callers.  The body is verified against it (plus the trace clauses) under C02.
 # A-C02: while the output events of this assignment are delivered, nobody re-assigns this block's output.
-@contract('SBlock.set_output', qual='edzed.block:SBlock.set_output', modifies=('_output',),
+def queues_only_grow(S, T):
+    """guarantee of everything that runs during event delivery: blocks are only added to the changed-block queues
+    (they are taken out only by the simulator task: scan obligation `queue_consumers`, C01)"""
+    qx, bx = Int('q!g'), Int('b!g')
+    return ForAll([qx, bx], Implies(S.whole('q_set')[qx][bx], T.whole('q_set')[qx][bx]))
+
+
+def output_event_data(p, v):
+    """the data of an output event: trigger='output', previous, value (the sender adds 'source')"""
+    return dict_of(trigger=S_('output'), previous=p, value=v)
+
+
+def send_rec(arr, j, me, p, v):
+    """trace record of `event.send(self, trigger='output', previous=p, value=v)` for the j-th event of a tuple"""
+    return rec('send', arr[j], Val.Obj(me), kw=output_event_data(p, v))
+
+
+def events_are_objects(arr, n):
+    j = Int('j!ev')
+    return ForAll([j], Implies(And(0 <= j, j < n), Val.is_Obj(arr[j])))
+
+
+def sent_block(tr, base, arr, n, me, p, v):
+    """tr[base .. base+n) are the sends of the tuple (arr, n), in the configured order"""
+    j = Int('j!sb')
+    return ForAll([j], Implies(And(0 <= j, j < n), tr[base + j] == send_rec(arr, j, me, p, v)))
+
+
+# sblock_queue: the set of queued blocks is what the simulator needs (ghost field q_set of the queue object)
+@contract('SblockQueue.put_nowait', modifies=('q_set',), result=None,
+          sig=([__import__('pyvc.contract', fromlist=['Param']).Param('self', Ref()),
+                __import__('pyvc.contract', fromlist=['Param']).Param('item', Ref())], None, None),
+          trusted='asyncio.Queue.put_nowait (unbounded queue: never raises, appends)',
+          traced=lambda a, st: rec('put_nowait', to_val(a['self'], st), to_val(a['item'], st)))
+def _sq_put(c):
+    q, item = c.z('self'), c.z('item')
+    c.ensures('queued', c.post('q_set', q) == Store(c.pre('q_set', q), item, BoolVal(True)))
+    x = Int('x!q')
+    c.ensures('other_queues_untouched', ForAll([x], Implies(x != q, c.post_whole('q_set')[x] == c.pre_whole('q_set')[x])))
+
+
+# Contract of SBlock.set_output.  Callers see the state clauses (under A-C02: while the output events of this
+# assignment are delivered, nobody re-assigns this block's output); the body is additionally verified against the
+# trace clauses of C02 (which events, in which order, with which data) and the queue notification of C01.
+@contract('SBlock.set_output', qual='edzed.block:SBlock.set_output', modifies=DELIVERY,
           result=None, self_cls='SBlock',
           traced=lambda a, st: rec('set_output', to_val(a['self'], st), to_val(a['value'], st)))
 def set_output_contract(c):
     me, v = c.z('self'), c.v('value')
     p = c.pre('_output', me)
+    changed = Not(py_eq(p, v))
+    q = c.pre('sblock_queue', c.pre('circuit', me))
     c.raises('ValueError', when=v == Val.Undef, iff=True)
-    c.raises('DeliveryError', when=v != Val.Undef, unchanged=False,
-             ensures=lambda post, exc: [post.f('_output', me) == set_output_result(p, v)])
+    def on_delivery_error(post, exc):
+        out = [post.f('_output', me) == set_output_result(p, v),
+               Implies(changed, post.f('q_set', q)[me])]
+        if c.verifying:
+            out.append(Implies(changed, And(post.tn >= 1, post.tr[0] == rec('put_nowait', Val.Obj(q), Val.Obj(me)))))
+        return out
+    c.raises('DeliveryError', when=v != Val.Undef, unchanged=False, ensures=on_delivery_error)
     c.ensures('value_defined', v != Val.Undef)
     c.ensures('self_output', c.post('_output', me) == set_output_result(p, v))
+    c.ensures('changed_block_is_queued', Implies(changed, c.post('q_set', q)[me]))
+    if c.verifying:
+        E, nE = c.pre('_output_events', me)
+        EE, nEE = c.pre('_every_output_events', me)
+        c.requires('event_tuples', And(nE >= 0, nEE >= 0, events_are_objects(E, nE), events_are_objects(EE, nEE)))
+        put = rec('put_nowait', Val.Obj(q), Val.Obj(me))
+        # the activation's call trace, position by position: unchanged -> the on_every_output events; changed -> the queue
+        # notification, the on_output events, the on_every_output events (each tuple in its configured order)
+        def expected(k):
+            return If(changed, If(k == 0, put, If(k < 1 + nE, send_rec(E, k - 1, me, p, v), send_rec(EE, k - 1 - nE, me, p, v))),
+                      send_rec(EE, k, me, p, v))
+        c.expect_trace(expected, If(changed, 1 + nE + nEE, nEE))
+        c.ensures('unchanged:output_object_kept', Implies(Not(changed), c.post('_output', me) == p))
+        c.ensures('changed:output_is_value', Implies(changed, c.post('_output', me) == v))
+
+
+def inv_set_output_loop1(lc):
+    me, v = as_kind(lc.pre.args['self'], Ref()), to_val(lc.pre.args['value'], lc.pre.st)
+    q = lc.pre.f('sblock_queue', lc.pre.f('circuit', me))
+    return [('trace_position', lc.st.tn == 1 + lc.i),
+            ('first_call_was_the_queue_notification', lc.st.tr[0] == rec('put_nowait', Val.Obj(q), Val.Obj(me))),
+            ('output_assigned_before_first_send', lc.st.f('_output', me) == v),
+            ('queued', lc.st.f('q_set', q)[me])]
+
+
+def inv_set_output_loop2(lc):
+    me, v = as_kind(lc.pre.args['self'], Ref()), to_val(lc.pre.args['value'], lc.pre.st)
+    p = lc.pre.f('_output', me)
+    q = lc.pre.f('sblock_queue', lc.pre.f('circuit', me))
+    E, nE = lc.pre.f('_output_events', me)
+    changed = Not(py_eq(p, v))
+    return [('trace_position', lc.st.tn == If(changed, 1 + nE, 0) + lc.i),
+            ('first_call_was_the_queue_notification', Implies(changed, lc.st.tr[0] == rec('put_nowait', Val.Obj(q), Val.Obj(me)))),
+            ('output_value', lc.st.f('_output', me) == set_output_result(p, v)),
+            ('queued_if_changed', Implies(changed, lc.st.f('q_set', q)[me]))]
+
+
+SET_OUTPUT_INVARIANTS = {'for event in self._output_events': inv_set_output_loop1,
+                         'for event in self._every_output_events': inv_set_output_loop2}
 
 
 # ------------------------------------------------------------------------------------------ user callables
@@ -84,9 +177,9 @@ def user_call(ex, st, f, pos, named, stars, sargs, node):
     if stars or sargs: raise Unsupported('*/** arguments to a user callable')
     fv, a = to_val(f, st), pack_args(st, pos, named)
     outs = []
-    ok = st.copy(); ok.assume(Not(app_raises(fv, a))); ok.emit(rec('usercall', fv, a))
+    ok = st.copy(); ok.assume(Not(app_raises(fv, a))); ex.emit(ok, rec('usercall', fv, a))
     if ex.feasible(ok): outs.append((ok, ZV('val', app(fv, a))))
-    bad = st.copy(); bad.assume(app_raises(fv, a)); bad.emit(rec('usercall', fv, a)); bad.label('usercall:raises')
+    bad = st.copy(); bad.assume(app_raises(fv, a)); ex.emit(bad, rec('usercall', fv, a)); bad.label('usercall:raises')
     if ex.feasible(bad): outs.append((bad, Raise(PExc('OtherException', val=Val.Obj(fresh('exc', IntSort())), where='callee'))))
     return outs
 
@@ -94,7 +187,7 @@ def user_call(ex, st, f, pos, named, stars, sargs, node):
 # ------------------------------------------------------------------------------------------ event() entry point
 # `self.event(etype, **data)` as seen by a caller inside the same block (init_from_value and friends): the call is
 # recorded in the activation trace with its data; what the handler does is the handler's own contract.
-@contract('*.event', modifies=('_output', '_event_active'), result=VAL,
+@contract('*.event', modifies=DELIVERY, result=VAL,
           sig=([__import__('pyvc.contract', fromlist=['Param']).Param('self', Ref(), posonly=True),
                 __import__('pyvc.contract', fromlist=['Param']).Param('etype', VAL, posonly=True)], None, 'data'),
           trusted='SBlock.event / AddonPersistence.event (verified under C11, C09, C06)',
@@ -103,7 +196,8 @@ def event_iface(c):
     # the value returned by the handler: an uninterpreted function of destination, event type, delivered data and the
     # position of the call in the activation (so that a caller can say "returns the handler's result")
     c.returns(ZV('val', evres(Val.Obj(c.z('self')), c.v('etype'), mkD(c.arg('data').arr), c.S.tn)))
-    c.raises('DeliveryError', unchanged=False)
+    c.ensures('queues_only_grow', queues_only_grow(c.S, c.T))
+    c.raises('DeliveryError', unchanged=False, ensures=lambda post, exc: [queues_only_grow(c.S, post)])
 
 
 evres = Function('evres', Val, Val, IntSort(), IntSort(), Val)
